@@ -1,6 +1,7 @@
 """Reference model of PCovR / KernelPCovR (documented formulas, simplest numpy
 form).  Parsed by the checker, never executed."""
 import numpy as np
+from sklearn.utils.extmath import stable_cumsum
 from scipy import linalg
 from sklearn.utils.extmath import randomized_svd, svd_flip
 from skmatter.utils import pcovr_covariance, pcovr_kernel
@@ -49,6 +50,25 @@ def leading_components(mat, k):
     U, S, Vt = linalg.svd(mat, full_matrices=False)
     U, Vt = svd_flip(U, Vt)
     return U[:, :k], S[:k], Vt[:k]
+
+
+def components_for_fraction(S, fraction):
+    # a fractional n_components asks for the smallest k whose leading eigenvalues of the decomposed
+    # (modified covariance / Gram) matrix carry more than that fraction of their total; those
+    # eigenvalues are the explained variances up to the common factor 1 / (n - 1)
+    ratio = S / S.sum()
+    return np.searchsorted(stable_cumsum(ratio), fraction, side="right") + 1
+
+
+def resolved_components(mat, fraction):
+    U, S, Vt = linalg.svd(mat, full_matrices=False)
+    return components_for_fraction(S, fraction)
+
+
+def kernel_resolved_components(mat, fraction, tol):
+    U, S, Vt = linalg.svd(mat, full_matrices=False)
+    S[S < tol] = 0.0
+    return components_for_fraction(S, fraction)
 
 
 def kernel_leading_components(mat, k, tol):
